@@ -1,6 +1,8 @@
 /- Helper lemmas for C04Track (the 8-bit check rules track the real rules at 8 units per LLR):
 TrackLemmas1 (real analysis of the steps, one-step comparison), TrackLemmas2 (folds, signs, argmin, lists),
-TrackLemmas3 (the folds from `none`, the two rules). -/
+TrackLemmas3 (the folds from `none`, the two rules), TrackLemmas4 (partial hard limiting factored out as an emission
+map; promotion clauses). -/
 import LdpcV.Lemmas.TrackLemmas1
 import LdpcV.Lemmas.TrackLemmas2
 import LdpcV.Lemmas.TrackLemmas3
+import LdpcV.Lemmas.TrackLemmas4
